@@ -48,9 +48,20 @@ def sortBy {α} (cmp : α → α → Int) (l : List α) : List α := l.foldl (fu
 /-- regenerated from parser/lr/grammar.go by `bin/pre-C11` -/
 def primeSuffixes : List String := AlgoVerif.Generated.C11.lr_primeSuffixes
 
-/-- `AddNewNonTerminal(G.Start, primeSuffixes...)` (names that already end in a prime are not modelled) -/
+/-- `strings.TrimSuffix` (on valid UTF-8 a byte suffix that is itself a string is a character suffix) -/
+def trimSuffix (s suf : String) : String :=
+  let cs := s.toList
+  let xs := suf.toList
+  if xs.isSuffixOf cs then String.ofList (cs.take (cs.length - xs.length)) else s
+
+/-- "Use the base prefix without any previously applied suffix": the suffixes are trimmed one after the other, in the
+order of the list, each at most once (`S′` ↦ `S`, `S′″` ↦ `S′`, `S″′` ↦ `S`; see `AddNewNonTerminal`) -/
+def augBase (g : SGrammar) : String := primeSuffixes.foldl trimSuffix g.start
+
+/-- `AddNewNonTerminal(G.Start, primeSuffixes...)`: the first of `base′ base″ base‴ base⁗` that is not yet a
+non-terminal, `base` being the start symbol without the suffixes it already ends in -/
 def augStart (g : SGrammar) : Option String :=
-  (primeSuffixes.map (g.start ++ ·)).find? (fun n => !(n ∈ g.nonterms))
+  (primeSuffixes.map (augBase g ++ ·)).find? (fun n => !(n ∈ g.nonterms))
 
 def dedupProds (ps : List Pr) : List Pr := ps.foldl addNew []
 
